@@ -2,5 +2,23 @@
 package all
 
 import (
+	_ "verifharness/c01"
+	_ "verifharness/c02"
+	_ "verifharness/c03"
+	_ "verifharness/c04"
+	_ "verifharness/c05"
+	_ "verifharness/c06"
+	_ "verifharness/c07"
+	_ "verifharness/c08"
+	_ "verifharness/c09"
+	_ "verifharness/c10"
+	_ "verifharness/c11"
+	_ "verifharness/c12"
+	_ "verifharness/c13"
+	_ "verifharness/c14"
 	_ "verifharness/c15"
+	_ "verifharness/c17"
+	_ "verifharness/c18"
+	_ "verifharness/c19"
+	_ "verifharness/c20"
 )
